@@ -257,7 +257,9 @@ def run_one(ch, cfg):
                 bad("params/network", "%r device network %d" % (pr.get("network"), net))
         # ---- signerHeartbeat
         ud = ch.bytes(16, "ud.signer")
-        rep, exc, excused = ask({"command": "signerHeartbeat", "udValue": ud.hex(), "version": 5})
+        # (hex digits of the user-defined value in either case: the value is the bytes)
+        udhex = ud.hex().upper() if ch.draw(3, "ud.signer.uppercase") == 1 else ud.hex()
+        rep, exc, excused = ask({"command": "signerHeartbeat", "udValue": udhex, "version": 5})
         h = hb["signer"]
         if excused:
             pass
@@ -310,7 +312,8 @@ def run_one(ch, cfg):
     start_mode = dev.mode
     ud = ch.bytes(32, "ud.ui")
     t0 = w.clock.now
-    rep, exc = w.request({"command": "uiHeartbeat", "udValue": ud.hex(), "version": 5})
+    udhex = ud.hex().upper() if ch.draw(3, "ud.ui.uppercase") == 1 else ud.hex()
+    rep, exc = w.request({"command": "uiHeartbeat", "udValue": udhex, "version": 5})
     h = hb["ui"]
     # let a slow device finish booting before looking at where it ended up
     w.clock.advance(60.0)
